@@ -6,6 +6,13 @@
 
 #include "lltdPort.h"
 
+#if defined(__has_feature)
+#if __has_feature(memory_sanitizer)
+#include <sanitizer/msan_interface.h>
+#define VP_MSAN 1
+#endif
+#endif
+
 vif      vp_sys;
 vif     *vp_if[VP_MAX_IF + 1];
 vcfg     vp_cfg;
@@ -145,7 +152,9 @@ void *lltd_port_malloc(size_t size) {
     void *p = malloc(size ? size : 1);
     if (!p) { fprintf(stderr, "HARNESS: host malloc failed\n"); exit(2); }
     vif *v = vp_cur ? vp_cur : &vp_sys;
-    memset(p, v->fill, size);
+#ifndef VP_MSAN
+    memset(p, v->fill, size);      /* MSan build: fresh memory stays uninitialised and is tracked by the tool */
+#endif
     lt_put(p, size, v);
     v->live++;
     v->bytes += (long)size;
@@ -198,6 +207,9 @@ int lltd_port_send_frame(void *iface_ctx, const void *frame, size_t frame_len) {
         rc = -1;
         vp_faults_fired |= 2;
     }
+#ifdef VP_MSAN
+    if (frame) __msan_check_mem_is_initialized(frame, frame_len);   /* every transmitted byte must be initialised */
+#endif
     char tmp[128];
     int n = snprintf(tmp, sizeof tmp, "%s{\"k\":\"t\",\"ifc\":%d,\"rc\":%d,\"tick\":%d,\"n\":%zu,\"b\":[",
                      ob_items ? "," : "", v ? v->id : 0, rc, vp_in_tick, frame_len);
